@@ -7,6 +7,7 @@ import (
 	"fmt"
 	"os"
 	"runtime/debug"
+	"strconv"
 	"testing"
 	"time"
 )
@@ -34,6 +35,40 @@ func TestVerifReplay(t *testing.T) {
 		Observed []string `json:"observed"`
 	}
 	done := make(chan result, 1)
+	if rep := os.Getenv("VERIF_REPEAT"); rep != "" {
+		// sampling mode (confirmation of a support violation): run the harness many times with
+		// the real generator and random values for the harness's own inputs; report the union of
+		// the labels reached.
+		n, _ := strconv.Atoi(rep)
+		vfFree = true
+		seen := map[string]bool{}
+		var union []string
+		t0 := time.Now()
+		runs := 0
+		for ; runs < n && time.Since(t0) < 60*time.Second; runs++ {
+			vfPos, vfReached, vfObserved = 0, nil, nil
+			vfRandLog, vfRandLogging, vfRandReplay = nil, false, -1
+			func() {
+				defer func() {
+					if r := recover(); r != nil {
+						if _, ok := r.(vfStop); !ok {
+							panic(r)
+						}
+					}
+				}()
+				fn()
+			}()
+			for _, l := range vfReached {
+				if !seen[l] {
+					seen[l] = true
+					union = append(union, l)
+				}
+			}
+		}
+		out, _ := json.Marshal(result{Outcome: "ok", Msg: fmt.Sprintf("%d runs", runs), Reached: union})
+		fmt.Printf("VERIF-RESULT %s\n", out)
+		return
+	}
 	go func() {
 		var res result
 		defer func() {
